@@ -10,10 +10,10 @@ package main
 import (
 	"fmt"
 	"net/http"
-	"os"
-	"strconv"
 	"net/http/httptest"
+	"os"
 	"sort"
+	"strconv"
 	"strings"
 	"time"
 
